@@ -16,7 +16,7 @@ RULE = ("real evaluator -> real aggregator -> real statistics loader: 1-4 class 
         "non-trivial = >= 2 groups with at least one missing value, or a name containing a delimiter character")
 
 GNAMES = ["organ", "Lesion", "my-grp", "grp_2", "Upper Case", "a-b-c", "x_y-z", "g 1"]
-SUBJ = ["s1", "subject_name", "a,b", 'q"uote', "with space", "-dash-", "x-y_z", "Ünï", "1", "s1 ", "tab?no", "semi;colon", "'single'", "#hash"]
+SUBJ = ["Case_A", "case_a", "s1", "subject_name", "a,b", 'q"uote', "with space", "-dash-", "x-y_z", "Ünï", "1", "s1 ", "tab?no", "semi;colon", "'single'", "#hash"]
 
 
 def classify(v):
@@ -173,7 +173,69 @@ def rand_case(ctx, tag, i):
     one_case(ctx, groups, cfg, gm, subjects, arrays, log_times, f"{tag}{i}", n_aggs=rng.choice([1, 1, 2, 3]))
 
 
+def permuted_continuation(ctx, k):
+    """history: a second aggregator continues the file of a first one with the same groups listed in another order (or
+    with another metric selection); it must either refuse the file or keep every value under its own column"""
+    rng = ctx.rng
+    names = rng.sample(["alpha", "beta", "ga-mma"], rng.choice([2, 3]))
+    labels = {n: [i + 1] for i, n in enumerate(names)}
+    order2 = names[:]
+    while order2 == names:
+        rng.shuffle(order2)
+    metrics = ["IOU", "DSC"]
+    d = VERIF / ".work" / f"c18h_{os.getpid()}"
+    shutil.rmtree(d, ignore_errors=True)
+    d.mkdir(parents=True)
+    out = str(d / "h.tsv")
+    inp = {"history": "permuted-continuation", "groups_first": names, "groups_second": order2, "src": f"hist{k}"}
+    ctx.case(inp, True, sample=inp)
+    ctx.count("permuted_continuation_histories")
+    try:
+        def mk(order):
+            groups = [{"name": n, "labels": labels[n], "merge": False, "single": False} for n in order]
+            return impl.mk_evaluator(E.mk_cfg("MATCHED", metrics), groups=groups, global_metrics=[])
+        def arrays(seed):
+            r = np.zeros((4, 8), np.uint8)
+            p = np.zeros((4, 8), np.uint8)
+            for i, n in enumerate(names):
+                r[i % 4, 0:4 + i] = labels[n][0]
+                p[i % 4, (seed + i) % 3:4 + i] = labels[n][0]
+            return p, r
+        expected = {}
+        with quiet(), np.errstate(all="ignore"):
+            ev1 = mk(names)
+            a1 = Panoptica_Aggregator(ev1, out)
+            p, r = arrays(0)
+            expected["subject_1"] = {g: v[0].to_dict() for g, v in ev1.evaluate(p, r).items()}
+            a1.evaluate(p, r, "subject_1")
+            ev2 = mk(order2)
+            try:
+                a2 = Panoptica_Aggregator(ev2, out)
+            except AssertionError:
+                ctx.count("second_aggregator_refused")
+                return
+            p, r = arrays(1)
+            expected["subject_2"] = {g: v[0].to_dict() for g, v in ev2.evaluate(p, r).items()}
+            a2.evaluate(p, r, "subject_2")
+            st = Panoptica_Statistic.from_file(out)
+        for s_, exp in expected.items():
+            with quiet():
+                one = st.get_one_subject(s_)
+            for g in exp:
+                for m, v in exp[g].items():
+                    want, got = classify(v), one[g][m]
+                    if not ((want is None and got is None) or (want is not None and got is not None and float(got) == want)):
+                        ctx.violation(f"C18 violated: subject {s_!r} group {g!r} metric {m!r}: result reports {v!r} but the statistics loader reads {got!r} "
+                                      f"(a second aggregator with groups {order2} continued a file written with groups {names})", inp,
+                                      key={"kind": "roundtrip"})
+                        return
+    finally:
+        shutil.rmtree(d, ignore_errors=True)
+
+
 def run(ctx):
+    for k in range(ctx.scale(4, 30)):
+        permuted_continuation(ctx, k)
     for i in range(ctx.scale(200, 2500)):
         rand_case(ctx, "rand", i)
 
@@ -185,5 +247,9 @@ def search(ctx):
 
 def replay(ctx, rec):
     i = rec["input"]
+    if i.get("history") == "permuted-continuation":
+        for k in range(6):
+            permuted_continuation(ctx, k)
+        return
     arrays = [(np.array(p, dtype=np.uint8).reshape(sh), np.array(r, dtype=np.uint8).reshape(sh)) for sh, p, r in i["arrays"]]
     one_case(ctx, i["groups"], i["cfg"], i["global_metrics"], i["subjects"], arrays, i["log_times"], "replay", n_aggs=i.get("n_aggs", 1))
